@@ -56,6 +56,12 @@ type naRecord struct {
 	Full     rt.Res          `json:"full"`
 	Again    naRes           `json:"again"`
 	AgainErr string          `json:"againErr"`
+	// Messages of >= 2 alerts once more, with a trip update added to the FIRST alert's entity (one entity, two
+	// payloads): the alerts of that parse, and the alerts of the message without its first alert.
+	HasFused     bool             `json:"hasFused"`
+	FusedErr     string           `json:"fusedErr"`
+	Fused        abs.Seq[naAlert] `json:"fused"`
+	WithoutFirst abs.Seq[naAlert] `json:"withoutFirst"`
 }
 
 func idx(pool []string, s string) int {
@@ -186,6 +192,42 @@ func nyctalertsDriver(args []string) (*Summary, error) {
 			}
 			rec.Again = projectNA(msg, rt.Projector{Zone: time.UTC}.Project(raw2), raw2)
 		}()
+		nAlerts := 0
+		for _, e := range msg.Ents {
+			if e.K == "al" {
+				nAlerts++
+			}
+		}
+		if nAlerts >= 2 && len(msg.Ents) > 0 && msg.Ents[0].K == "al" && rec.Err == "" {
+			rec.HasFused = true
+			rec.Fused, rec.WithoutFirst = abs.Seq[naAlert]{}, abs.Seq[naAlert]{}
+			func() {
+				defer func() {
+					if r := recover(); r != nil {
+						rec.FusedErr = fmt.Sprint("panic: ", r)
+					}
+				}()
+				fused := msg
+				fused.Ents = append(append([]rt.Ent{}, msg.Ents...), rt.Ent{K: "tu", Trip: abs.Some(rt.TD{ID: abs.Some(1), Route: abs.None[int](), Dir: abs.None[int](),
+					St: abs.None[rt.ST](), Sd: abs.None[rt.SD](), Sr: abs.None[int]()}), Veh: abs.None[rt.VD]()})
+				fused.Fuse = [][]int{{1, len(fused.Ents)}}
+				raw, err := gtfs.ParseRealtime(rt.Bytes(fused, append(append([]int{}, order...), len(fused.Ents))), &gtfs.ParseRealtimeOptions{Extension: nyctalerts.Extension(toOpts(*c.Opts))})
+				if err != nil {
+					rec.FusedErr = "error: " + err.Error()
+					return
+				}
+				rec.Fused = append(rec.Fused, projectNA(fused, rt.Projector{Zone: time.UTC}.Project(raw), raw).Alerts...)
+				raw, err = gtfs.ParseRealtime(rt.Bytes(msg, order[1:]), &gtfs.ParseRealtimeOptions{Extension: nyctalerts.Extension(toOpts(*c.Opts))})
+				if err != nil {
+					rec.FusedErr = "error: " + err.Error()
+					return
+				}
+				rec.WithoutFirst = append(rec.WithoutFirst, projectNA(msg, rt.Projector{Zone: time.UTC}.Project(raw), raw).Alerts...)
+			}()
+			if strings.HasPrefix(rec.FusedErr, "panic:") {
+				s.Crashes = append(s.Crashes, map[string]string{"case": id, "what": "ParseRealtime (entity with two payloads) " + rec.FusedErr})
+			}
+		}
 		plain := rt.ParseOnce(msg, order, "nil", nil)
 		rec.PlainErr, rec.Plain = plain.Err, plain.Res
 		if strings.HasPrefix(rec.Err, "panic:") {
